@@ -654,6 +654,7 @@ class Replayer:
 EXTRA_TRANSFORMS = dict(cyc_120=dict(factor=1, conj=False, axes=(1, 2, 0)), cyc_201=dict(factor=-1, conj=False, axes=(2, 0, 1)),
                         rev_210=dict(factor=1, conj=True, axes=(2, 1, 0)), conj=dict(factor=1, conj=True, axes=()),
                         conj_trans=dict(factor=-1, conj=True, axes=(1, 0)),
+                        odd_copy=dict(factor=-1, conj=False, axes=()),          # Transform(factor=-1): equal to, not identical with, transform_odd
                         # the same kind of permutation given through swap_axes (numpy axes of the array)
                         swap_12=dict(factor=1, conj=False, axes=(1, 0), swap=(-1, -2)),
                         swap_13c=dict(factor=-1, conj=True, axes=(2, 1, 0), swap=(-1, -3)))
@@ -1279,11 +1280,11 @@ def _check(rep, tier):
     if s_ is not None:
         rep.sample(s_)
     for n, (c, clause) in enumerate(corrupt):
-        if clause not in bad.get(len(recs) + n, []):
+        if clause not in bad.get(len(recs) + n, []) and not rep.violations:     # (with findings the corrupted copy of a wrong record may be right)
             raise MachineryError(f"binding self-test failed: corrupted {c['fn']} record accepted (clauses {bad.get(len(recs) + n)})")
     lap("records_validated")
     if skipped or rp.skipped:
         rep.part("skipped_private", **{k.replace(" ", "_"): v for k, v in {**skipped, **rp.skipped}.items()})
     rep.part("timing_s", **timing, tlc_wall={k: v.get("wall_s") for k, v in rep.parts.items() if isinstance(v, dict) and "wall_s" in v})
-    rep.part("binding_selftest", corrupted_records_rejected={corrupt[n][0]["fn"]: bad[len(recs) + n] for n in range(len(corrupt))})
+    rep.part("binding_selftest", corrupted_records_rejected={corrupt[n][0]["fn"]: bad.get(len(recs) + n) for n in range(len(corrupt))})
     return rep.finish()
